@@ -163,8 +163,21 @@ SubVals(fr, n) == IF fr.f = "wild" THEN (IF IsArr(n) THEN n.a ELSE IF IsObj(n) T
 (* different kinds are unequal; null == null; != is the complement): "eqnull" `@.k == null` a PRESENT null member,          *)
 (* "nenull" `@.k != null`, "eqnothing" `@.k == Nothing` an ABSENT member, "nenothing" `@.k != Nothing`.  (has / exists on a   *)
 (* present null member is left open by the documentation and is not in the menu.)                                          *)
+(* numbers: [i |-> n] and floats [fq |-> <<n, k>>] = n / 2^k (small dyadic rationals are exact).  "cmpk" `@.key <cmp> c`, "cmps" `@ <cmp> c`   *)
+(* (sw: operands swapped), cmp in lt, gt, le, ge, c an int or float constant: as spec/Script.tla states, numbers compare BY VALUE across int    *)
+(* and float, and an ordering between values of different kinds (a number and null / Nothing / a string / a container) is false.                *)
+IsNum(n) == "i" \in DOMAIN n \/ "fq" \in DOMAIN n
+RECURSIVE Pow2(_)
+Pow2(k) == IF k <= 0 THEN 1 ELSE 2 * Pow2(k - 1)
+NumN(n) == IF "i" \in DOMAIN n THEN n.i ELSE n.fq[1]
+NumK(n) == IF "i" \in DOMAIN n THEN 0 ELSE n.fq[2]
+NumLt(x, y) == NumN(x) * Pow2(NumK(y)) < NumN(y) * Pow2(NumK(x))
+NumCmpOp(cmp, x, y) == IsNum(x) /\ IsNum(y) /\
+                       CASE cmp = "lt" -> NumLt(x, y) [] cmp = "gt" -> NumLt(y, x) [] cmp = "le" -> ~NumLt(y, x) [] OTHER -> ~NumLt(x, y)
 FilterTrue(f, e) ==
-  CASE f.op = "eqnull" -> HasKey(e, f.key) /\ Member(e, f.key) = [z |-> 0]
+  CASE f.op = "cmps" -> IF f.sw THEN NumCmpOp(f.cmp, f.c, e) ELSE NumCmpOp(f.cmp, e, f.c)
+    [] f.op = "cmpk" -> HasKey(e, f.key) /\ (IF f.sw THEN NumCmpOp(f.cmp, f.c, Member(e, f.key)) ELSE NumCmpOp(f.cmp, Member(e, f.key), f.c))
+    [] f.op = "eqnull" -> HasKey(e, f.key) /\ Member(e, f.key) = [z |-> 0]
     [] f.op = "nenull" -> ~(HasKey(e, f.key) /\ Member(e, f.key) = [z |-> 0])
     \* the element itself compared (true on null / scalar / container elements as the documented semantics say: values of
     \* different kinds are unequal, != is the complement): "nes" `@ != c`, "nek" `@.k != c` (a missing member is Nothing, unequal to c)
